@@ -342,6 +342,161 @@ def translate_function(cls: str, fn: str, f: ast.FunctionDef) -> str:
     return "\n".join(out)
 
 
+
+# ------------------------------------------------------------------ decision logic (match tracking, veto)
+
+MODE_CTOR = {"MT+": ".plus", "MT-": ".minus", "MT0": ".zero", "MT1": ".one", "MT~": ".tilde"}
+TRACK_SITES = {   # class -> file; each has its own copy of `_match_tracking`
+    "BaseART": "artlib/common/BaseART.py",
+    "BayesianART": "artlib/elementary/BayesianART.py",
+    "DualVigilanceART": "artlib/topological/DualVigilanceART.py",
+    "TopoART": "artlib/topological/TopoART.py",
+    "CVIART": "artlib/cvi/CVIART.py",
+}
+
+
+def _method_eq(test: ast.AST) -> str:
+    if (isinstance(test, ast.Compare) and len(test.ops) == 1 and isinstance(test.ops[0], ast.Eq)
+            and isinstance(test.left, ast.Name) and test.left.id == "method"
+            and isinstance(test.comparators[0], ast.Constant) and test.comparators[0].value in MODE_CTOR):
+        return test.comparators[0].value
+    raise Unsupported(f"match-tracking test {ast.unparse(test)}")
+
+
+def _track_expr(e: ast.AST) -> str:
+    """expression over M, epsilon, np.inf"""
+    if isinstance(e, ast.Name) and e.id in ("M", "epsilon"):
+        return e.id
+    if isinstance(e, ast.Attribute) and ast.unparse(e) == "np.inf":
+        return "inf"
+    if isinstance(e, ast.UnaryOp) and isinstance(e.op, ast.USub):
+        return f"(-{_track_expr(e.operand)})"
+    if isinstance(e, ast.BinOp) and isinstance(e.op, (ast.Add, ast.Sub)):
+        op = "+" if isinstance(e.op, ast.Add) else "-"
+        return f"({_track_expr(e.left)} {op} {_track_expr(e.right)})"
+    raise Unsupported(f"match-tracking value {ast.unparse(e)}")
+
+
+def translate_match_tracking(cls: str, f: ast.FunctionDef) -> str:
+    """`_match_tracking(cache, epsilon, params, method)`: per mode, the new vigilance and keep-searching flag"""
+    stmts = [s for s in f.body if not (isinstance(s, ast.Expr) and isinstance(s.value, ast.Constant)) and not isinstance(s, ast.Assert)]
+    if not (stmts and isinstance(stmts[0], ast.Assign) and ast.unparse(stmts[0]) == "M = cache['match_criterion']"):
+        raise Unsupported(f"{cls}._match_tracking: expected `M = cache['match_criterion']`")
+    if len(stmts) != 2 or not isinstance(stmts[1], ast.If):
+        raise Unsupported(f"{cls}._match_tracking: expected one if/elif chain")
+    arms = {}
+    node = stmts[1]
+    while True:
+        mode = _method_eq(node.test)
+        body = node.body
+        new_rho = "rho"
+        if len(body) == 2 and isinstance(body[0], ast.Assign):
+            tgt = ast.unparse(body[0].targets[0])
+            if tgt not in ("self.params['rho']", "self.base_module.params['rho']"):
+                raise Unsupported(f"{cls}._match_tracking assigns {tgt}")
+            new_rho = _track_expr(body[0].value)
+            body = body[1:]
+        if not (len(body) == 1 and isinstance(body[0], ast.Return) and isinstance(body[0].value, ast.Constant)
+                and isinstance(body[0].value.value, bool)):
+            raise Unsupported(f"{cls}._match_tracking arm {mode}")
+        if mode in arms:
+            raise Unsupported(f"{cls}._match_tracking: duplicate arm {mode}")
+        arms[mode] = (new_rho, "true" if body[0].value.value else "false")
+        if len(node.orelse) == 1 and isinstance(node.orelse[0], ast.If):
+            node = node.orelse[0]
+            continue
+        if not (len(node.orelse) == 1 and isinstance(node.orelse[0], ast.Raise)):
+            raise Unsupported(f"{cls}._match_tracking: final else must raise")
+        break
+    if set(arms) != set(MODE_CTOR):
+        raise Unsupported(f"{cls}._match_tracking: modes {sorted(arms)}")
+    lines = [f"/-- generated from `{cls}._match_tracking`: (vigilance after a vetoed match, keep searching?) -/",
+             "def match_tracking (inf : α) (method : Art.MT) (M epsilon rho : α) : α × Bool :=",
+             "  match method with"]
+    for mode, ctor in MODE_CTOR.items():
+        lines.append(f"  | {ctor} => ({arms[mode][0]}, {arms[mode][1]})")
+    return "\n".join(lines) + "\n"
+
+
+def translate_operator(f: ast.FunctionDef) -> str:
+    """`_match_tracking_operator(method)`: strict (`gt`) or not (`ge`)"""
+    stmts = [s for s in f.body if not (isinstance(s, ast.Expr) and isinstance(s.value, ast.Constant))]
+    if len(stmts) != 1 or not isinstance(stmts[0], ast.If):
+        raise Unsupported("_match_tracking_operator: expected one if/elif chain")
+    strict = {}
+    node = stmts[0]
+    while True:
+        t = node.test
+        if not (isinstance(t, ast.Compare) and len(t.ops) == 1 and isinstance(t.ops[0], ast.In) and isinstance(t.left, ast.Name)
+                and t.left.id == "method" and isinstance(t.comparators[0], ast.List)):
+            raise Unsupported("_match_tracking_operator test")
+        if not (len(node.body) == 1 and isinstance(node.body[0], ast.Return)):
+            raise Unsupported("_match_tracking_operator arm")
+        op = ast.unparse(node.body[0].value)
+        if op not in ("operator.ge", "operator.gt"):
+            raise Unsupported(f"_match_tracking_operator returns {op}")
+        for el in t.comparators[0].elts:
+            if not (isinstance(el, ast.Constant) and el.value in MODE_CTOR) or el.value in strict:
+                raise Unsupported("_match_tracking_operator mode list")
+            strict[el.value] = "true" if op == "operator.gt" else "false"
+        if len(node.orelse) == 1 and isinstance(node.orelse[0], ast.If):
+            node = node.orelse[0]
+            continue
+        break
+    if set(strict) != set(MODE_CTOR):
+        raise Unsupported(f"_match_tracking_operator: modes {sorted(strict)}")
+    lines = ["/-- generated from `BaseART._match_tracking_operator`: is the comparison strict (`operator.gt`)? -/",
+             "def strict (method : Art.MT) : Bool :=", "  match method with"]
+    for mode, ctor in MODE_CTOR.items():
+        lines.append(f"  | {ctor} => {strict[mode]}")
+    return "\n".join(lines) + "\n"
+
+
+def translate_match_bin(cls: str, f: ast.FunctionDef) -> str:
+    """`match_criterion_bin`: which way round the operator is applied"""
+    for s in f.body:
+        if isinstance(s, ast.Assign) and ast.unparse(s.targets[0]) == "M_bin":
+            v = ast.unparse(s.value)
+            if v == "op(M, params['rho'])":
+                return (f"/-- generated from `{cls}.match_criterion_bin`: `op(M, rho)` -/\n"
+                        "def match_bin (op : α → α → Bool) (M rho : α) : Bool := op M rho\n")
+            if v == "op(params['rho'], M)":
+                return (f"/-- generated from `{cls}.match_criterion_bin`: `op(rho, M)` (inverted vigilance) -/\n"
+                        "def match_bin (op : α → α → Bool) (M rho : α) : Bool := op rho M\n")
+            raise Unsupported(f"{cls}.match_criterion_bin: M_bin = {v}")
+    raise Unsupported(f"{cls}.match_criterion_bin: no M_bin assignment")
+
+
+def translate_reset(f: ast.FunctionDef) -> str:
+    """`SimpleARTMAP.match_reset_func`: allowed unless the category is mapped to another class"""
+    stmts = [s for s in f.body if not (isinstance(s, ast.Expr) and isinstance(s.value, ast.Constant))]
+    want = ["cluster_b = extra['cluster_b']",
+            "if cluster_a in self.map and self.map[cluster_a] != cluster_b:\n    return False",
+            "return True"]
+    got = [ast.unparse(s) for s in stmts]
+    if got != want:
+        raise Unsupported("SimpleARTMAP.match_reset_func has an unexpected shape: " + " ; ".join(got)[:200])
+    return ("/-- generated from `SimpleARTMAP.match_reset_func` (True = the category may be used) -/\n"
+            "def match_reset (map : Nat → Option Nat) (cluster_a cluster_b : Nat) : Bool :=\n"
+            "  if (map cluster_a).isSome ∧ map cluster_a ≠ some cluster_b then false else true\n")
+
+
+def generate_logic(repo: Path) -> str:
+    out = []
+    for cls, rel in TRACK_SITES.items():
+        tree = ast.parse((repo / rel).read_text())
+        out += [f"namespace {cls}", "", "variable {α : Type} [Field α] [LinearOrder α] [IsStrictOrderedRing α]", ""]
+        out.append(translate_match_tracking(cls, find_function(tree, cls, "_match_tracking")))
+        if cls == "BaseART":
+            out.append(translate_operator(find_function(tree, cls, "_match_tracking_operator")))
+        if cls in ("BaseART", "BayesianART"):
+            out.append(translate_match_bin(cls, find_function(tree, cls, "match_criterion_bin")))
+        out += [f"end {cls}", ""]
+    tree = ast.parse((repo / "artlib/supervised/SimpleARTMAP.py").read_text())
+    out += ["namespace SimpleARTMAP", "", translate_reset(find_function(tree, "SimpleARTMAP", "match_reset_func")), "end SimpleARTMAP", ""]
+    return "\n".join(out)
+
+
 def generate(repo: Path) -> str:
     chunks = ["/-",
               "GENERATED by harness/artv/ktrans.py from the Python sources of artlib — do not edit.",
@@ -364,6 +519,7 @@ def generate(repo: Path) -> str:
             f = find_function(tree, cls, fn)
             chunks.append(translate_function(cls, fn, f))
         chunks += [f"end {cls}", ""]
+    chunks.append(generate_logic(repo))
     chunks += ["end Art.Gen", ""]
     return "\n".join(chunks)
 
